@@ -4,6 +4,7 @@ import (
 	"crypto/sha256"
 	"crypto/sha512"
 	"encoding/base64"
+	"encoding/json"
 	"fmt"
 	"go/token"
 )
@@ -48,7 +49,9 @@ func (in *Interp) strLen(s *Str) *Term {
 func (in *Interp) ghostLen(s *Str) *Term {
 	g := s.G
 	switch g.Ctor {
-	case "b64", "b64alt":
+	case "casevar", "casedig":
+		return in.strLen(g.Args[0].(*Str))
+	case "b64", "b64alt", "b64case":
 		n := in.strLen(g.Args[0].(*Str))
 		return UDiv(Add(Mul(n, BVu(64, 4)), BVu(64, 2)), BVu(64, 3))
 	case "sha":
@@ -67,11 +70,110 @@ func (in *Interp) ghostLen(s *Str) *Term {
 	if t, ok := in.glen[key]; ok {
 		return t
 	}
+	lo, hi := BVu(64, 2), BVu(64, 1499)
+	if g.Ctor == "json" || g.Ctor == "canon" {
+		sp := "canon"
+		if g.Ctor == "json" {
+			sp = g.Args[1].(string)
+		}
+		if sp == "go" || sp == "canon" || sp == "compact" {
+			l, h, exact := in.jsonLen(g.Args[0].(*JNode), sp)
+			if exact {
+				in.glen[key] = l
+				return l
+			}
+			lo, hi = l, h
+		}
+	}
 	t := in.newSym(64, "glen")
-	in.assert(ULt(t, BVu(64, 1500)))
-	in.assert(ULt(BVu(64, 1), t))
+	in.assert(ULe(t, hi))
+	in.assert(ULe(lo, t))
 	in.glen[key] = t
 	return t
+}
+
+// jsonLen: bounds on the length of the compact text of a JSON tree; exact when every leaf has a determinate length
+// (opaque atoms, concrete strings, encoder outputs, booleans, null). Numbers take 1..25 characters, a symbolic byte
+// 1..6 characters, any other opaque leaf up to 1500.
+func (in *Interp) jsonLen(n *JNode, spelling string) (lo, hi *Term, exact bool) {
+	k := func(v int) *Term { return BVu(64, uint64(v)) }
+	switch n.Kind {
+	case jNull:
+		return k(4), k(4), true
+	case jBool:
+		if n.B.Const {
+			if n.B.IsTrue() {
+				return k(4), k(4), true
+			}
+			return k(5), k(5), true
+		}
+		l := Ite(n.B, k(4), k(5))
+		return l, l, true
+	case jNum:
+		return k(1), k(25), false
+	case jStr:
+		return in.jsonStrLen(n.S, spelling)
+	case jArr:
+		base := 2
+		if c := len(n.Elems); c > 1 {
+			base = 2 + c - 1
+		}
+		lo, hi, exact = k(base), k(base), true
+		for _, e := range n.Elems {
+			l, h, ex := in.jsonLen(e, spelling)
+			lo, hi, exact = Add(lo, l), Add(hi, h), exact && ex
+		}
+		return lo, hi, exact
+	case jObj:
+		base := 2 + len(n.Keys) // one colon per member
+		if c := len(n.Keys); c > 1 {
+			base += c - 1
+		}
+		lo, hi, exact = k(base), k(base), true
+		for i := range n.Keys {
+			kl, kh, ex1 := in.jsonStrLen(n.Keys[i], spelling)
+			vl, vh, ex2 := in.jsonLen(n.Vals[i], spelling)
+			lo, hi, exact = Add(lo, Add(kl, vl)), Add(hi, Add(kh, vh)), exact && ex1 && ex2
+		}
+		return lo, hi, exact
+	}
+	return k(1), k(1499), false
+}
+
+func (in *Interp) jsonStrLen(s *Str, spelling string) (lo, hi *Term, exact bool) {
+	k := func(v int) *Term { return BVu(64, uint64(v)) }
+	switch s.Kind {
+	case sBytes:
+		if c, ok := s.Concrete(); ok {
+			if spelling == "canon" {
+				l := k(len(jcsString(c)))
+				return l, l, true
+			}
+			if b, err := json.Marshal(c); err == nil {
+				l := k(len(b))
+				return l, l, true
+			}
+		}
+		return k(2 + len(s.B)), k(2 + 6*len(s.B)), false
+	case sAtom:
+		l := Add(k(2), alen(s.Atom)) // atoms are letter strings: nothing to escape
+		return l, l, true
+	case sGhost:
+		switch s.G.Ctor {
+		case "b64", "b64alt", "b64case", "b64x", "itoa":
+			l := Add(k(2), in.strLen(s))
+			return l, l, true
+		}
+		return k(2), k(1499), false
+	case sConcat:
+		lo, hi, exact = k(2), k(2), true
+		for _, p := range s.Parts {
+			l, h, ex := in.jsonStrLen(p, spelling)
+			lo, hi, exact = Add(lo, Sub(l, k(2))), Add(hi, Sub(h, k(2))), exact && ex
+		}
+		return lo, hi, exact
+	}
+	return k(2), k(1499), false
 }
 
 func (in *Interp) freshBool(key string) *Term {
